@@ -1,7 +1,7 @@
 (* C03/Spec.v -- the property, stated independently of the algorithm: the zero-padded window,
    and boolean checkers used by the correspondence (Corr.v) on the observed outputs. *)
 From Coq Require Import ZArith List Lia Bool.
-From PV Require Import Base.PySlice Base.NpSearch C16.Model C03.Model.
+From PV Require Import Base.PySlice Base.NpSearch C16.Model C16.Spec C03.Model.
 Import ListNotations.
 Open Scope Z_scope.
 
